@@ -121,7 +121,9 @@ def _dag_cases(tier, rng):
             if len(users) >= 2:
                 for f in m["funcs"]:
                     f.get("defaults", {}).pop(p, None)
-                one, two = rng.choice((("D_one", "D_two"), (None, "D_two"), ("D_one", None), (0, 1), ((), (1,))))
+                # (also values that differ, but only barely, or only in kind: 0.1 + 0.2 vs 0.3, 1 vs 1.0000000001, "1" vs 1)
+                one, two = rng.choice((("D_one", "D_two"), (None, "D_two"), ("D_one", None), (0, 1), ((), (1,)),
+                                       (0.1 + 0.2, 0.3), (1.0, 1.0 + 1e-12), ("1", 1), (1e9, 1e9 + 1e-3)))
                 users[0].setdefault("defaults", {})[p] = one
                 users[1].setdefault("defaults", {})[p] = two
                 yield {"dag": m, "fault": "inconsistent-defaults"}
